@@ -17,9 +17,9 @@ import (
 
 func c09Seeds(thorough bool) []explore.Seed {
 	g := gridOpts{N: 3, MaxR: 2, MaxSlots: 1, Policies: []string{"OrderedReady", "Parallel"},
-		Strategies: []gen.Strategy{gen.RU(0), gen.OnDelete()}, Histories: []history{histories[0], histories[1], histories[5]}, DMin: 0, DMax: 1, Limit: 1}
+		Strategies: []gen.Strategy{gen.RU(0), gen.RU(1), gen.OnDelete()}, Histories: []history{histories[0], histories[1], histories[4], histories[5]}, DMin: 0, DMax: 1, Limit: 1}
 	if thorough {
-		g.Strategies = []gen.Strategy{gen.RU(0), gen.RU(1), gen.OnDelete()}
+		g.Strategies = []gen.Strategy{gen.RU(0), gen.RU(1), gen.OnDelete(), gen.OnDeleteWithBlock(1)}
 		g.Histories = coreHistories
 	}
 	return append(searchSeeds([]gridOpts{g}), c09ExtraSeeds(true)...)
